@@ -302,7 +302,9 @@ pub fn exec(case: &PfCase) -> RunOut {
     distinct.dedup();
     let max = distinct.last().copied().unwrap_or(0);
     let ty_max = case.ty.max();
-    let mut syms: Vec<u128> = (0..24).map(|_| *rng.pick(&distinct)).collect();
+    // (under the Miri interpreter a query costs milliseconds: a fifth of the list)
+    let light = cfg!(miri);
+    let mut syms: Vec<u128> = (0..if light { 4 } else { 24 }).map(|_| *rng.pick(&distinct)).collect();
     syms.extend([distinct[0], max, max.saturating_add(1).min(ty_max), max.saturating_add(2).min(ty_max), ty_max]);
     if max > 0 {
         for _ in 0..4 {
@@ -311,7 +313,7 @@ pub fn exec(case: &PfCase) -> RunOut {
     }
     // symbols that alias an occurring symbol when truncated to 8/16/32/64 bits
     for b in [8u32, 16, 32, 64] {
-        if case.ty.bits() > b {
+        if case.ty.bits() > b && !light {
             let base = 1u128 << b;
             for _ in 0..2 {
                 let c = *rng.pick(&distinct);
@@ -324,7 +326,7 @@ pub fn exec(case: &PfCase) -> RunOut {
     syms.sort();
     syms.dedup();
     let mut positions: Vec<usize> = vec![0, 1, n / 2, n.saturating_sub(1), n, n.wrapping_add(1), usize::MAX];
-    for _ in 0..10 {
+    for _ in 0..if light { 2 } else { 10 } {
         positions.push(rng.usize_below(n + 1));
     }
     for b in [256usize, 512, 2048] {
